@@ -214,9 +214,9 @@ func GenConfig(prop string, g *Gen, tier string) Config {
 		}
 	case "C12":
 		// loads must really happen: no cache, a 1-2 entry cache, or the evicting chaos cache
-		c.Cache = []string{"none", "none", "arc-tiny:1", "arc-tiny:2", "chaos"}[g.Intn(5)]
+		c.Cache = []string{"none", "none", "none", "arc-tiny:1", "arc-tiny:2", "chaos"}[g.Intn(6)]
 		c.BF = []uint{2, 2, 3, 4}[g.Intn(4)]
-		c.U = []int{8, 12, 20, 40}[g.Intn(4)]
+		c.U = []int{12, 20, 40, 80}[g.Intn(4)]
 		if c.KeyD == "userkey" {
 			c.Layers = genLayers(g, c.U)
 		}
